@@ -132,6 +132,19 @@ theorem emOri_negF (sq : Rat → Rat) (f e : Fld) (h : emOri sq f = .ok e) : emO
   rw [e]
   rfl
 
+/-! ## invalid cells -/
+
+/-- `Field.diff(restrict2valid=True)` stores the zero vector in every invalid cell -/
+theorem Dv_invalid_zero (f : Fld) (ax : Nat) (hax : ax < f.mesh.ndim) (h3 : f.nvdim = 3) (i : List Nat)
+    (hi : i.getD ax 0 < f.mesh.nAt ax) (hv : f.valid.get i = false) : Dv f ax 1 true i = V3.zero := by
+  have hd := diff_eq f ax 1 true (Or.inl rfl) hax
+  have e : ∀ c, c < 3 → Dc f ax 1 true c i = 0 := by
+    intro c hc
+    rw [← diff_comp f _ ax 1 true hd i c (by omega)]
+    exact C04.diff_invalid_zero f _ ax 1 hd i c (by omega) hi hv
+  unfold C19.Dv V3.zero
+  rw [e 0 (by omega), e 1 (by omega), e 2 (by omega)]
+
 /-! ## divergence and the plane integrals -/
 
 /-- SPEC of the divergence `Σ_k ∂_k F_k` at cell `i` -/
@@ -333,6 +346,111 @@ theorem bpOf_neg (fint : List Rat) (pi : Rat) :
       (fun x hx => by have := (List.mem_filter.mp hx).2; simp at this; omega)
     simp only [Int.ofNat_eq_natCast]
     omega
+
+/-! ## a unit step of the rounded flux -/
+
+theorem rle_replicate (x : Int) (b : Nat) (hb : 0 < b) : rle (List.replicate b x) = [(x, b)] := by
+  induction b with
+  | zero => omega
+  | succ b ih =>
+    cases b with
+    | zero => simp [rle]
+    | succ b =>
+      rw [List.replicate_succ, rle, ih (by omega)]
+      simp
+
+theorem rle_step (x y : Int) (hxy : x ≠ y) (a b : Nat) (ha : 0 < a) (hb : 0 < b) :
+    rle (List.replicate a x ++ List.replicate b y) = [(x, a), (y, b)] := by
+  induction a with
+  | zero => omega
+  | succ a ih =>
+    cases a with
+    | zero =>
+      simp only [List.replicate_succ, List.replicate_zero, List.nil_append, List.cons_append, rle]
+      rw [rle_replicate y b hb]
+      simp [hxy]
+    | succ a =>
+      rw [List.replicate_succ, List.cons_append, rle, ih (by omega)]
+      simp
+
+theorem getD_step (a b k : Nat) (hk : k < a + b) :
+    (List.replicate a (0 : Int) ++ List.replicate b 1).getD k 0 = if k < a then 0 else 1 := by
+  rw [List.getD_eq_getElem?_getD]
+  by_cases h : k < a
+  · rw [List.getElem?_append_left (by simpa using h)]
+    simp [h]
+  · rw [List.getElem?_append_right (by simpa using h)]
+    simp only [List.length_replicate, if_neg h]
+    rw [List.getElem?_replicate, if_pos (by omega)]
+    rfl
+
+theorem diffs_step (a b : Nat) :
+    diffs (List.replicate a (0 : Int) ++ List.replicate b 1) = tab (a + b - 1) fun k => if k + 1 = a then 1 else 0 := by
+  unfold diffs
+  simp only [List.length_append, List.length_replicate]
+  apply tab_congr
+  intro k hk
+  rw [getD_step a b (k + 1) (by omega), getD_step a b k (by omega)]
+  by_cases h1 : k + 1 < a
+  · have : k < a := by omega
+    simp [h1, this]; omega
+  · by_cases h2 : k < a
+    · have : k + 1 = a := by omega
+      simp [h1, h2, this]
+    · simp [h1, h2]; omega
+
+theorem tab_single (n j : Nat) (hj : j < n) :
+    (tab n fun k => if k = j then (1 : Int) else 0) = List.replicate j 0 ++ [1] ++ List.replicate (n - 1 - j) 0 := by
+  apply List.ext_getElem
+  · simp [tab]; omega
+  · intro i h1 h2
+    simp only [tab, List.getElem_map, List.getElem_range]
+    by_cases hi : i < j
+    · rw [List.getElem_append_left (by simp; omega), List.getElem_append_left (by simpa using hi)]
+      simp; omega
+    · by_cases hij : i = j
+      · subst hij
+        rw [List.getElem_append_left (by simp)]
+        simp
+      · rw [List.getElem_append_right (by simp; omega)]
+        simp; omega
+
+
+theorem isum_append (a b : List Int) : isum (a ++ b) = isum a + isum b := by
+  induction a with
+  | nil => simp [isum]
+  | cons x xs ih => simp only [List.cons_append, isum, ih]; omega
+
+theorem isum_replicate_zero (n : Nat) : isum (List.replicate n 0) = 0 := by
+  induction n with
+  | zero => rfl
+  | succ n ih => simp [List.replicate_succ, isum, ih]
+
+/-- A SINGLE UNIT STEP IS ONE TAIL-TO-TAIL BLOCH POINT: if the rounded cumulative flux `F_int/(4π)` is
+`0` on the first `a` cells and `1` on the remaining `b` cells, `count_bps` reports exactly one Bloch
+point, tail-to-tail, none head-to-head, pattern `[[0, a], [1, b]]` -/
+theorem bpOf_unit_step (fint : List Rat) (pi : Rat) (a b : Nat) (ha : 0 < a) (hb : 0 < b)
+    (h : (fint.map fun x => Mesh.roundHalfEven (x / (4 * pi))) = List.replicate a 0 ++ List.replicate b 1) :
+    (bpOf fint pi).total = 1 ∧ (bpOf fint pi).tt = 1 ∧ (bpOf fint pi).hh = 0 ∧
+    (bpOf fint pi).pattern = [(0, a), (1, b)] := by
+  unfold bpOf
+  simp only [h]
+  have hd : diffs (List.replicate a (0 : Int) ++ List.replicate b 1)
+      = List.replicate (a - 1) 0 ++ [1] ++ List.replicate (a + b - 1 - 1 - (a - 1)) 0 := by
+    rw [diffs_step a b, ← tab_single (a + b - 1) (a - 1) (by omega)]
+    apply tab_congr
+    intro k _
+    by_cases hk : k + 1 = a
+    · rw [if_pos hk, if_pos (by omega)]
+    · rw [if_neg hk, if_neg (by omega)]
+  rw [hd]
+  refine ⟨?_, ?_, ?_, rle_step 0 1 (by decide) a b ha hb⟩
+  · simp only [List.map_append, List.map_replicate, List.map_cons, List.map_nil, isum_append]
+    simp [isum_replicate_zero, isum]
+  · simp only [List.filter_append, List.filter_replicate]
+    simp [isum]
+  · simp only [List.filter_append, List.filter_replicate]
+    simp [isum]
 
 /-! ## `count_bps` -/
 
